@@ -82,6 +82,15 @@ func (ContextTracker) OnWrite(x *Ctx, w *Write) {
 			b.Status.Phase == rolloutsv1beta1.RolloutPhaseProgressing {
 			x.Mon["ctx.forgotRelease"] = "1"
 		}
+		// the same happens when a release is superseded (or reverted before any pod was updated): doProgressingReset ends
+		// by clearing the sub-status ("Workload is continuous release") and the next pass starts from scratch; until it
+		// has re-established itself the Rollout does not know what the previous pass modified
+		if b != nil && a != nil && !b.Status.IsSubStatusEmpty() && a.Status.IsSubStatusEmpty() && b.Status.Phase == rolloutsv1beta1.RolloutPhaseProgressing {
+			x.Mon["ctx.statusReset"] = "1"
+		}
+		if a != nil && !a.Status.IsSubStatusEmpty() {
+			delete(x.Mon, "ctx.statusReset") // a new pass has recorded its own state
+		}
 	}
 	// the BatchRelease controller raises the exposure although the workload's revision is no longer the one the
 	// BatchRelease was created for (the release was superseded and the Rollout has not replaced it yet)
